@@ -26,8 +26,10 @@ BAD_UINT = ["", "-1", "abc", "1.5", " 1", "1 ", "0x10", "١", "9" * 400, "1_0", 
 BAD_FLOAT = ["12.+34", "12.-34", "+12.+34", "1.2.3", "1..2", "1. 5", "1 .5", "1.5 ", "1_000.0", "0x1p3", "1.5f", "1,500", "٣.٥", "1.0e", "e5",
              "--1", "+-1", "1.+00", "0.-00", ".+5", "12.３４", "12.34\t", "\t12.34"]
 BAD = {"u8": BAD_UINT + [str(U8 + 1)], "u32": BAD_UINT + [str(U32 + 1)], "u64": BAD_UINT + [str(U64 + 1)],
-       "usize": BAD_UINT + [str(U64 + 1)], "bool": ["", "2", "true", "01", "yes", "-1"],
-       "state": ["", "PLAY", "playing", "paused", "stopped", "0"], "single": ["", "2", "Oneshot", "on", "true"],
+       # ... including the words that are valid for ANOTHER field (a value of single is not a value of repeat, and so on)
+       "usize": BAD_UINT + [str(U64 + 1)], "bool": ["", "2", "true", "01", "yes", "-1", "oneshot", "false", "on", "off", "no", "1 ", " 1", "0x1", "play", "10", "00"],
+       "state": ["", "PLAY", "playing", "paused", "stopped", "0", "1", "oneshot", "Play", " play", "play ", "play\r"],
+       "single": ["", "2", "Oneshot", "on", "true", "play", "1 ", "oneshot ", "ONESHOT", "one shot", "01"],
        "ms": ["", "abc", "-1", "nan", "inf", "-inf", "1e300", str(2 ** 64), "1,5", "1:5", " 1"] + BAD_FLOAT,
        "secs": ["", "abc", "-1", "NaN", "infinity", str(2 ** 64)] + BAD_FLOAT}
 UNITS = [["volume"], ["partition"], ["mixrampdb"], ["xfade"], ["mixrampdelay"], ["song", "songid"], ["time"], ["elapsed"],
